@@ -36,6 +36,7 @@ let show_made tyf errf canonf = function
   | MPurl (t, p) -> show (tyf t) p (canonf t p)
   | MErr e -> "E " ^ errf e
   | MStop s -> stop s
+let ukey i = List.map (fun c -> byte_of_int (Char.code c)) (let s = [| "buildTag"; "X-Y.z_1"; "bad key" |].(i) in List.init (String.length s) (String.get s))
 let csops s =
   List.map (fun o -> match String.split_on_char '.' o with
     | ["i"; k; v] -> CInsert (unhex k, unhex v) | ["w"; k; v] -> CInsertRaw (unhex k, unhex v) | ["r"; k] -> CRemove (unhex k)
@@ -45,7 +46,7 @@ let bops tyf s =
     | ["N"; x] -> XName (unhex x) | ["S"; x] -> XNs (unhex x) | ["s"] -> XNoNs | ["V"; x] -> XVer (unhex x) | ["v"] -> XNoVer
     | ["U"; x] -> XSub (unhex x) | ["u"] -> XNoSub | ["T"; x] -> XType (tyf x) | ["Q"; k; v] -> XQual (unhex k, unhex v)
     | ["q"; k] -> XUnqual (unhex k) | ["z"] -> XClearQ | ["C"; c] -> XCs (csops c) | ["c"] -> XNoCs | ["R"; x] -> XRepo (unhex x)
-    | ["r"] -> XNoRepo | ["D"; k; v] -> XDirectIns (unhex k, unhex v) | ["E"; k] -> XDirectRem (unhex k)
+    | ["r"] -> XNoRepo | ["W"; i; v] -> XTyped (ukey (int_of_string i), unhex v) | ["w"; i] -> XUntyped (ukey (int_of_string i)) | ["D"; k; v] -> XDirectIns (unhex k, unhex v) | ["E"; k] -> XDirectRem (unhex k)
     | _ -> failwith ("bop " ^ o)) (split ',' s)
 
 (* the canonical string of a value of a given kind: format through the extracted functions *)
@@ -72,7 +73,6 @@ let line_of_triple tyf errf fmtf (m, rest) =
 let fmt_g t p = x_format_g t p
 let fmt_t t p = x_format_t t p
 
-let ukey i = List.map (fun c -> byte_of_int (Char.code c)) (let s = [| "buildTag"; "X-Y.z_1"; "bad key" |].(i) in List.init (String.length s) (String.get s))
 let rec nat_of_int i = if i <= 0 then O else S (nat_of_int (i - 1))
 let qops s =
   List.map (fun o -> match String.split_on_char ':' o with
